@@ -27,10 +27,12 @@ Cmds == {"encrypt", "decrypt", "pass_encrypt", "pass_decrypt", "key_generate"}
 \* failure causes C13 lists, before any authenticated output exists
 EarlyCauses(cmd) ==
   CASE cmd = "encrypt" ->
-         {"bad_args", "missing_input", "same_in_out", "missing_keyring", "malformed_keyring", "non_utf8_keyring", "unknown_recipient",
+         {"bad_args", "missing_input", "same_in_out", "missing_keyring", "malformed_keyring", "non_utf8_keyring",
+          "non_utf8_keyring_path", "keyring_is_directory", "unknown_recipient",
           "unknown_sender", "no_private_key", "wrong_password", "unset_password", "non_utf8_password", "no_terminal", "refused_exchange"}
     [] cmd = "decrypt" ->
-         {"bad_args", "missing_input", "same_in_out", "missing_keyring", "malformed_keyring", "non_utf8_keyring", "unknown_recipient",
+         {"bad_args", "missing_input", "same_in_out", "missing_keyring", "malformed_keyring", "non_utf8_keyring",
+          "non_utf8_keyring_path", "keyring_is_directory", "unknown_recipient",
           "no_private_key", "wrong_password", "unset_password", "non_utf8_password", "no_terminal", "wrong_recipient",
           "bad_header", "other_mode_file", "corrupt_header", "truncated_header", "corrupt_first_chunk", "truncated_first_chunk"}
     [] cmd = "pass_encrypt" -> {"bad_args", "missing_input", "same_in_out", "unset_password", "non_utf8_password", "no_terminal"}
@@ -42,11 +44,13 @@ EarlyCauses(cmd) ==
 \* is a full device.  The operation did not complete: exit 1 with an error message (C12), nothing new
 \* at a regular output path (C13 by analogy).
 \* "stdout_closed": stdout is a pipe whose reader has gone away (EPIPE)
-OutputCauses == {"output_dir_missing", "output_device_full", "stdout_full", "stdout_closed"}
+\* "output_is_directory": the output path names an existing directory
+OutputCauses == {"output_dir_missing", "output_device_full", "stdout_full", "stdout_closed", "output_is_directory"}
 
 \* "non_utf8_password": KESTREL_PASSWORD holds bytes that are not UTF-8; "no_terminal": no --env-pass and neither a
 \* controlling terminal nor a terminal on stdin, so no password can be asked for; "non_utf8_keyring": the keyring file is
-\* not UTF-8 text.
+\* not UTF-8 text; "non_utf8_keyring_path": KESTREL_KEYRING holds bytes that are not UTF-8 (the tool cannot take the path
+\* as given); "keyring_is_directory": the keyring path names a directory.
 \* The input itself cannot be read (it is a directory: open succeeds, read fails).  Not one of C13's causes: the
 \* operation did not complete, so exit 1 with an error message (C10 at the process boundary, C12); the state of the
 \* output path is left open.
@@ -73,7 +77,9 @@ Configs ==
      /\ (c.cause = "same_in_out" => (c.inp = "file" /\ c.outp = "file" /\ c.prior = "present"))
      /\ (c.cmd = "key_generate" => c.cause # "same_in_out")
      /\ (c.cause \in {"output_dir_missing", "output_device_full"} => (c.outp = "file" /\ c.prior = "absent"))
-     /\ (c.cause \in {"stdout_full", "stdout_closed"} => c.outp = "stdout")}
+     /\ (c.cause \in {"stdout_full", "stdout_closed"} => c.outp = "stdout")
+     /\ (c.cause = "output_is_directory" => (c.outp = "file" /\ c.prior = "absent"))
+     /\ (c.cause = "non_utf8_keyring_path" => c.kr = "env")}
 
 \* The abstract request: everything but the wiring.
 Abstract(c) == [cmd |-> c.cmd, cause |-> c.cause, sender |-> c.sender]
